@@ -206,6 +206,14 @@ func init() {
 					emit("req", []byte("POST / HTTP/1.1\r\nHost: h\r\nContent-Type: "+ct+"\r\n"+fr), []byte{byte(r.Intn(256))}, []byte{byte(r.Intn(64))})
 				}
 			}
+			// truncated / malformed percent-escapes at the very end of a host, an IPv6 literal or a zone
+			for _, host := range []string{"example.co%6", "example.co%", "example.co%zz", "example.co%6g", "ex%2", "%", "%4", "a%4g", "%41", "[fe80::1%25en%6]", "[fe80::1%25]", "[fe80::1%25en%]", "[fe80::1%2]", "[::1%6]", "h%6:80", "h:80%6", "u@h%6"} {
+				for _, f := range []string{"http://%s/", "//%s", "%s/x", "http://%s", "https://%s?q", "http://%s#f"} {
+					emit("uri", []byte(fmt.Sprintf(f, host)), []byte{0}, []byte{0})
+				}
+				emit("req", []byte("GET /x HTTP/1.1\r\nHost: "+host+"\r\n\r\n"), []byte{byte(r.Intn(256))}, []byte{byte(r.Intn(64))})
+				emit("req", []byte("GET http://"+host+"/x HTTP/1.1\r\nHost: h\r\n\r\n"), []byte{byte(r.Intn(256))}, []byte{byte(r.Intn(64))})
+			}
 			for digits := 17; digits <= 21; digits++ {
 				for _, top := range "1289" {
 					dec := string(top) + strings.Repeat(string("0379"[r.Intn(4)]), digits-1)
